@@ -148,6 +148,12 @@ m("next-does-not-remove-when-last", ["C09"], C,
 m("error-path-allocates", ["C13"], "microscpi/src/lib.rs", "mod commands;\n", "extern crate alloc;\nmod commands;\n", )
 M[-1]["extra"] = [(I, "                self.handle_error(error.into());\n", "                let _note = alloc::format!(\"{:?}\", error);\n                self.handle_error(error.into());\n")]
 
+m("queue-handler-drops-undefined-header-errors", ["C09"], C,
+  "        self.error_queue().push_error(error);",
+  "        if error != Error::UndefinedHeader {\n            self.error_queue().push_error(error);\n        }")
+m("queue-handler-pushes-custom-errors-twice", ["C09"], C,
+  "        self.error_queue().push_error(error);",
+  "        self.error_queue().push_error(error);\n        if let Error::Custom(..) = error {\n            self.error_queue().push_error(error);\n        }")
 # --- proc-macro
 MAC = "microscpi-macros/src/lib.rs"
 m("macro-surplus-arguments-accepted", ["C06"], MAC,
